@@ -114,4 +114,5 @@ def shrink(c):
     rows = [] if a[0] == "_" else [tuple(r.split(":", 1)) for r in a[0].split(",")]
     for i in range(len(rows)):
         r2 = rows[:i] + rows[i + 1:]
-        yield Case(c.op, [rows_str(r2)] + a[1:])
+        if r2:
+            yield Case(c.op, [rows_str(r2)] + a[1:])
